@@ -22,6 +22,7 @@ type CoalesceCase struct {
 	DelayMs  int      `json:"delay_ms"`  // how long the service takes per request
 	StaggerMs []int   `json:"stagger_ms"` // start offsets of the callers (all within the first request)
 	Changed  []string `json:"changed"`   // names with a new version at the service
+	Ticker   bool     `json:"ticker"`    // one of the overlapping polls is the store's own background poll
 }
 
 func runCoalesce(t *testing.T, c CoalesceCase) (v *h.Violation, info h.Info) {
@@ -32,7 +33,14 @@ func runCoalesce(t *testing.T, c CoalesceCase) (v *h.Violation, info h.Info) {
 			uniq[n] = true
 			svc.Set(n, 1, valueOf(n, 1))
 		}
-		st, err := setec.NewStore(context.Background(), setec.StoreConfig{Client: svc, Secrets: append([]string{}, c.Names...), PollInterval: -1, Logf: nolog})
+		cfg := setec.StoreConfig{Client: svc, Secrets: append([]string{}, c.Names...), PollInterval: -1, Logf: nolog}
+		var tick *chanTicker
+		if c.Ticker {
+			tick = newChanTicker()
+			cfg.PollTicker = tick
+			cfg.PollInterval = 0
+		}
+		st, err := setec.NewStore(context.Background(), cfg)
 		if err != nil {
 			v = h.V("harness", "NewStore: %v", err)
 			return
@@ -52,7 +60,11 @@ func runCoalesce(t *testing.T, c CoalesceCase) (v *h.Violation, info h.Info) {
 		for i := 0; i < c.Callers; i++ {
 			go func() {
 				time.Sleep(time.Duration(c.StaggerMs[i%len(c.StaggerMs)]) * time.Millisecond)
-				errs[i] = st.Refresh(context.Background())
+				if c.Ticker && i == 0 {
+					tick.Poll() // the background poller's own poll
+				} else {
+					errs[i] = st.Refresh(context.Background())
+				}
 				done <- i
 			}()
 		}
@@ -88,13 +100,16 @@ func runCoalesce(t *testing.T, c CoalesceCase) (v *h.Violation, info h.Info) {
 		}
 		info.NonTrivial = c.Callers >= 2
 		info.Class(fmt.Sprintf("callers-%d", c.Callers))
+		if c.Ticker && c.Callers >= 2 {
+			info.Class("background-poll-overlaps-refresh")
+		}
 	})
 	return
 }
 
 var c11coalesce = &h.Campaign[CoalesceCase]{
 	Prop: "C11", Sub: "coalesce",
-	Rule: "rapid + synctest: k (1-6) Refresh calls started within the first request of a poll whose requests each take a generated time; the service must see exactly one conditional get per known name and every caller must see the new values; non-trivial = k >= 2; distinct by scenario",
+	Rule: "rapid + synctest: k (1-6) polls - explicit Refresh calls and, in half the cases, one poll of the store's own background poller - started within the first request of a poll whose requests each take a generated time; the service must see exactly one conditional get per known name and every caller must see the new values; non-trivial = k >= 2; distinct by scenario",
 	Quick: 600, Thorough: 30000,
 	Gen: func(rt *rapid.T) CoalesceCase {
 		d := rapid.SampledFrom([]int{5, 50, 1000}).Draw(rt, "delay")
@@ -104,6 +119,7 @@ var c11coalesce = &h.Campaign[CoalesceCase]{
 			DelayMs:   d,
 			StaggerMs: rapid.SliceOfN(rapid.IntRange(0, d-1), 1, 6).Draw(rt, "stagger"),
 			Changed:   rapid.SliceOfN(rapid.SampledFrom([]string{"a", "b", "c", "d"}), 0, 3).Draw(rt, "changed"),
+			Ticker:    rapid.Bool().Draw(rt, "ticker"),
 		}
 	},
 	Run: runCoalesce,
